@@ -29,6 +29,10 @@ def main(argv):
     a = ap.parse_args(argv)
     from sim import runner
     pid = a.prop.upper()
+    if pid != 'SELFTEST' and getattr(runner.load_prop(pid), 'NEEDS_SHIM',
+                                     False):
+        from sim import crash
+        crash.reexec_with_shim()
 
     def log(s):
         print(s)
